@@ -514,8 +514,21 @@ size_t varintAdaptiveDecode(const uint8_t *src, uint64_t *values,
     }
 
     case VARINT_ADAPTIVE_DICT: {
-        /* Dict encoding is self-describing, pass large buffer size */
-        decoded = varintDictDecodeInto(data, 1024 * 1024, values, maxCount);
+        /* The adaptive container does not record the payload length, so bound
+         * it by the largest dictionary encoding that can decode into maxCount
+         * values: tagged dictionary size, up to 1M tagged entries (the
+         * dictionary decoder's own limit), tagged count, and indices of at
+         * most 3 bytes each. (A fixed 1 MiB cut off long arrays: they decoded
+         * to nothing.) */
+        const size_t dictBytes = 9 + (size_t)9 * 1048576 + 9;
+        size_t indexBytes;
+        if (size_mul_overflow(maxCount, 4, &indexBytes) ||
+            indexBytes > SIZE_MAX / 2 - dictBytes) {
+            decoded = 0;
+            break;
+        }
+        decoded = varintDictDecodeInto(data, dictBytes + indexBytes, values,
+                                       maxCount);
         break;
     }
 
